@@ -105,6 +105,9 @@ def run(ctx):
         cases.append({'arch': name, 'conn': None, 'kind': 'segment1', 'seg': 1, 'seed': 1, 'phase': 'all', 'msg': None, 'label': None})
         cases.append({'arch': name, 'conn': None, 'kind': 'debug-in-probes', 'seg': 0, 'seed': 1, 'phase': 'probe', 'msg': None, 'label': None})
         cases.append({'arch': name, 'conn': None, 'kind': 'prebanner', 'seg': 0, 'seed': 1, 'phase': 'all', 'msg': None, 'label': None})
+        cases.append({'arch': name, 'conn': None, 'kind': 'prebanner', 'seg': 1, 'seed': 2, 'phase': 'all', 'msg': None, 'label': None})
+        cases.append({'arch': name, 'conn': None, 'kind': 'prebanner', 'seg': 4, 'seed': 3, 'phase': 'all', 'msg': None, 'label': None})
+        cases.append({'arch': name, 'conn': None, 'kind': 'segment1', 'seg': 7, 'seed': 4, 'phase': 'all', 'msg': None, 'label': None})
     if q:
         must = [c for c in cases if c['kind'] in ('segment1', 'debug-in-probes', 'prebanner')]
         rest = [c for c in cases if c not in must]
